@@ -179,7 +179,12 @@ def inlined(prog, body, want, depth=3, _chain=()):
             # splice the closure's body (its environment is the operand, its parameters are the fields of the argument tuple)
             cdef = _closure_def(blocks, t["args"][0])
             cand = prog.bodies.get(cdef) if cdef else None
-            if cand is not None and cand.id not in ch and prog.bodies.get(cand.root, cand).id in {prog.bodies.get(prog.bodies[c].root, prog.bodies[c]).id for c in ch if c in prog.bodies}:
+            # only a closure that was *handed to* a spliced helper: the call sits in spliced code and the closure was written
+            # somewhere else (in the caller) — closures a function builds and calls itself (macro expansions) are left alone
+            here = blocks[bb].get("inlined_from")
+            if cand is not None and cand.id not in ch and here is not None \
+                    and prog.bodies.get(cand.root, cand).id in {prog.bodies.get(prog.bodies[c].root, prog.bodies[c]).id for c in ch if c in prog.bodies} \
+                    and not norm(cand.name).startswith(norm(here) + "::"):
                 cb, clos_call = cand, True
         if cb is None or cb.id in ch or not (clos_call or want(cb)):
             continue
